@@ -54,9 +54,9 @@ theorem C18_added_removed_ids (l r : Onto)
     simp only [List.mem_map, List.mem_filter, Option.isNone_iff_eq_none]
     constructor
     · rintro ⟨t, ⟨h1, h2⟩, rfl⟩
-      exact ⟨⟨t, h1, rfl⟩, by simpa using getR_eq_none.1 h2⟩
+      exact ⟨⟨t, h1, rfl⟩, by simpa using getR_eq_none_s.1 h2⟩
     · rintro ⟨⟨t, h1, rfl⟩, h2⟩
-      exact ⟨t, ⟨h1, getR_eq_none.2 (by simpa using h2)⟩, rfl⟩
+      exact ⟨t, ⟨h1, getR_eq_none_s.2 (by simpa using h2)⟩, rfl⟩
   exact ⟨key l r hr, key r l hl, fun k => ⟨keyR (l.recs k) (r.recs k), keyR (r.recs k) (l.recs k)⟩⟩
 
 /-- changed terms: a delta is reported exactly for the terms present in both ontologies that differ in
@@ -162,8 +162,8 @@ theorem C18_swap (l r : Onto) (hkl : KeysOk l) (hkr : KeysOk r)
         (∃ ta ∈ a.terms, ∃ tb, b.get ta.id = some tb ∧ d = delta a b ta tb ∧ Differ a b ta tb) →
         (∃ tb ∈ b.terms, ∃ ta, a.get tb.id = some ta ∧ d.swap = delta b a tb ta ∧ Differ b a tb ta) := by
       rintro a b hka d ⟨ta, h1, tb, h2, rfl, h4⟩
-      have hid := Onto.get_id h2
-      refine ⟨tb, Onto.get_mem h2, ta, by rw [hid]; exact hka ta h1, ?_, h4.symm⟩
+      have hid := Onto.get_id_s h2
+      refine ⟨tb, Onto.get_mem_s h2, ta, by rw [hid]; exact hka ta h1, ?_, h4.symm⟩
       rw [delta_swap a b ta tb hid]
     intro d
     rw [hmem, hmem']
@@ -177,8 +177,8 @@ theorem C18_swap (l r : Onto) (hkl : KeysOk l) (hkr : KeysOk r)
         d ∈ changedRecs k a b → d.swap ∈ changedRecs k b a := by
       intro a b hka d hd
       obtain ⟨x, h1, y, h2, rfl, h4⟩ := (mem_changedRecs k a b d).1 hd
-      have hid := getR_id h2
-      refine (mem_changedRecs k b a _).2 ⟨y, getR_mem h2, x, by rw [hid]; exact hka x h1, ?_, h4.symm⟩
+      have hid := getR_id_s h2
+      refine (mem_changedRecs k b a _).2 ⟨y, getR_mem_s h2, x, by rw [hid]; exact hka x h1, ?_, h4.symm⟩
       rw [mkAnnDelta_swap x y hid]
     constructor
     · exact half l r (hgl k) d
